@@ -399,13 +399,14 @@ func envItem(g *pk.Gen, members int) Item {
 		typ := []int{1, 2, 3, 4}[g.Rng.Intn(4)]
 		nv, ov := randName(g, 20), randName(g, 20)
 		if typ == 4 {
-			nv = fmt.Sprint([]int{512, 1024, 2048, 4096, 8, 70000}[g.Rng.Intn(6)])
+			// every boundary of the 16-bit packet length: the smallest sizes, 2^15 and 2^16 and their neighbours
+			nv = fmt.Sprint([]int{512, 1024, 2048, 4096, 8, 70000, 9, 10, 255, 256, 32767, 32768, 32769, 65024, 65535, 65536}[g.Rng.Intn(16)])
 			if g.Rng.Intn(12) == 0 {
-				nv = "x12"
+				nv = []string{"x12", "", "0", "-512", "+1024", " 512", "00512", "512 ", "99999999999999999999", "0x200", "5e2"}[g.Rng.Intn(11)]
 			}
 			if rxNoEnvErr {
 				// consumer-level runs: no queued errors (with an error AND the no-wait answer ready, select picks at random)
-				nv = fmt.Sprint([]int{512, 1024, 2048, 4096}[g.Rng.Intn(4)])
+				nv = fmt.Sprint([]int{512, 1024, 2048, 4096, 9, 32767, 32768, 65535}[g.Rng.Intn(8)])
 			}
 		}
 		inner = append(inner, pk.Cat([]byte{byte(typ)}, pk.LP8([]byte(nv)), pk.LP8([]byte(ov)))...)
@@ -976,6 +977,13 @@ func ConsumerRun(need, nenv int, rounds [][]Pkt, calls [][]Call, conc []bool) (s
 									return false, errCbWrapEOF
 								}
 								return false, errCb
+							case 4: // "handled, and failed": the error decides, the rest of the response is drained all the same
+								if c.WrapEOF {
+									return true, errCbWrapEOF
+								}
+								return true, errCb
+							case 5:
+								return true, io.EOF
 							}
 						}
 						return false, nil
@@ -1064,15 +1072,15 @@ func GenConsumer(g *pk.Gen) {
 			// calls: a few callbacks that stop / continue, ended by a call that completes the round
 			var cs []Call
 			for k := 0; k < g.Rng.Intn(3); k++ {
-				cs = append(cs, Call{Kind: 1, K: g.Rng.Intn(4), Outcome: []int{1, 2}[g.Rng.Intn(2)]})
+				cs = append(cs, Call{Kind: 1, K: g.Rng.Intn(4), Outcome: []int{1, 2, 1, 2, 5}[g.Rng.Intn(5)]})
 			}
 			switch g.Rng.Intn(3) {
 			case 0:
 				cs = append(cs, Call{Kind: 2})
 			case 1:
-				cs = append(cs, Call{Kind: 1, K: g.Rng.Intn(5), Outcome: 3, WrapEOF: g.Rng.Intn(3) == 0})
+				cs = append(cs, Call{Kind: 1, K: g.Rng.Intn(5), Outcome: []int{3, 4}[g.Rng.Intn(2)], WrapEOF: g.Rng.Intn(3) == 0})
 			default:
-				cs = append(cs, Call{Kind: 1, K: g.Rng.Intn(3), Outcome: 3, WrapEOF: g.Rng.Intn(3) == 0}, Call{Kind: 0})
+				cs = append(cs, Call{Kind: 1, K: g.Rng.Intn(3), Outcome: []int{3, 4}[g.Rng.Intn(2)], WrapEOF: g.Rng.Intn(3) == 0}, Call{Kind: 0})
 			}
 			// wait = false variants of the NextPackageUntil calls
 			for k := range cs {
